@@ -254,7 +254,7 @@ def trace_violation(e, rj, cls):
         'summary': {'grammar': e.gid, 'rules': ['%s -> %s%s' % (l, ' '.join(r) or 'eps', ' [%d]' % p if p else '') for (l, r, p) in e.g.rules],
                     'input': bytes(t['bytes']).decode('latin-1'), 'options': {'verbose': t['verbose'], 'ws': t['ws'], 'nl': t['nl'], 'stream': t['stream']},
                     'class': cls, 'spec_expected': rj['why'], 'real_event': evs[pos - 1] if 0 < pos <= len(evs) else None, 'real_ok': t['ok']},
-        'kind': 'parser', 'gname': e.g.name, 'mode': e.mode, 'gid': e.gid, 'dflt': list(getattr(e, 'dflt', ())), 'lexterms': getattr(e, 'lexterms', None), 'lexshape': getattr(e, 'lexshape', 'list'), 'clex': getattr(e, 'clex', False), 'ctxr': list(getattr(e, 'ctx', ())), 'postprec': list(getattr(e, 'postprec', ())), 'defines': list(getattr(e, 'defines', ())), 'noval': list(getattr(e, 'noval', ())), 'ctx': t.get('ctx', 0),
+        'kind': 'parser', 'gname': e.g.name, 'mode': e.mode, 'gid': e.gid, 'dflt': list(getattr(e, 'dflt', ())), 'lexterms': getattr(e, 'lexterms', None), 'lexshape': getattr(e, 'lexshape', 'list'), 'clex': getattr(e, 'clex', False), 'ctxr': list(getattr(e, 'ctx', ())), 'postprec': list(getattr(e, 'postprec', ())), 'defines': list(getattr(e, 'defines', ())), 'noval': list(getattr(e, 'noval', ())), 'nvterms': list(getattr(e, 'nvterms', ())), 'ctx': t.get('ctx', 0),
         'grammar': {'nts': e.g.nts, 'ts': e.g.ts, 'root': e.g.root, 'rules': e.g.rules, 'tprec': e.g.tprec, 'tassoc': e.g.tassoc},
         'bytes': t['bytes'], 'ws': t['ws'], 'nl': t['nl'], 'verbose': t['verbose'], 'stream': t['stream'], 'buf': t['buf']}
 
@@ -558,6 +558,9 @@ def check_C08(tier, seed):
     entries = []
     for g in catalogue('err'):
         entries += entries_for(g, hosts=(1,))
+        # the same grammar with terms whose value type is no_type (typed_term(t, create<no_type>{})): the error symbol's own
+        # value is a no_type as well
+        entries.append(pipeline.gen_entry(g, gid=g.name + '@nv', nvterms=[i for i in range(len(g.ts)) if i % 2 == 0]))
     nrand = 40 if tier == 'quick' else 400
     for i in range(nrand):
         g = gengram.random_grammar(rng, 'r%d_%d' % (seed, i), n_nt=rng.choice([2, 3]), n_t=rng.choice([2, 3]), max_rhs=3, error=True)
@@ -609,9 +612,16 @@ def check_C16(tier, seed):
     import lx as lxl
     for li, ts in enumerate([[lxl.S('if'), lxl.R('[0-9]+'), lxl.C('+'), lxl.S('++')], [lxl.R('[a-z]+'), lxl.S('=='), lxl.C('=')]][:1 if tier == 'quick' else 2]):
         entries.append(pipeline.lex_entry('c16lex%d' % li, ts))
+    # a parser with a custom lexical analyzer: its verbose trace must report the recognised terms as well
+    cat_ = {g.name: g for g in catalogue()}
+    eclex = pipeline.clex_entry(cat_['paren_list'], gid='c16clex@clex')
+    entries.append(eclex)
     groups = {}
     for e in entries:
-        if hasattr(e, 'lexterms'):
+        if e is eclex:
+            nt_ = len(e.g.ts)
+            ins = [s for s in gram.all_strings([0x40 + 4 * i for i in range(nt_)] + [0x41, 0x20, 0x21], 4)][:250 if tier == 'quick' else 2000]
+        elif hasattr(e, 'lexterms'):
             alpha = sorted({b for t in e.lexterms for b in ([t[1]] if t[0] == 'C' else t[1]) if 32 < b < 127 and chr(b) not in '[]-+*'} | {ord('1'), ord('2'), ord('+'), 32})[:7]
             ins = []
             for sx in gram.all_strings(alpha, 4):
@@ -1331,7 +1341,7 @@ def check_C06(tier, seed):
     # one lexeme longer than 2^16 bytes through the generated lexer (length bookkeeping in narrow integer types)
     import lx as lxl
     el = pipeline.lex_entry('longlexeme', [lxl.R('[a-z]+'), lxl.C(' ')])
-    pipeline.add_jobs(el, [[97] * 65600] + ([[98] * 70000 + [32] + [97] * 3, [97] * 131100] if tier != 'quick' else []), buf=0, verbose=False, ws=0, nl=0, tag='big')
+    pipeline.add_jobs(el, [[97] * 65600, [97] * 65534, [97] * 65535, [97] * 65536] + ([[98] * 70000 + [32] + [97] * 3, [97] * 131100] if tier != 'quick' else []), buf=0, verbose=False, ws=0, nl=0, tag='big')
     pipeline.add_jobs(el, [[97, 98, 32, 99], [32, 32], [97] * 300], buf=3, verbose=True, ws=0, nl=0, tag='s')
     entries.append(el)
     res, work = prun.run(entries, 'C06', design_L=None, do_product=False, tlc_procs=4 if tier == 'quick' else 8, tlc_workers=4 if tier == 'quick' else 2)
@@ -1864,6 +1874,10 @@ def check_C18(tier, seed):
             pipeline.add_jobs(e, ins if (ws, nl) == (1, 1) else ins[::5], verbose=True, ws=ws, nl=nl, tag='o%d%d_' % (ws, nl))
         pipeline.add_jobs(e, ins[::7], verbose=False, tag='nv')
         pipeline.add_jobs(e, ins[::11], verbose=True, buf=3, tag='ck')
+        if len(entries) and e is entries[0] or e.g.name in ('left_rec', 'paren_list'):
+            # one lexeme of a length around the 16-bit limit (the "no term" answer is index none / length 65535)
+            pipeline.add_jobs(e, [[0x40, 0x90] + [0x78] * (n - 1) for n in ((65534, 65535, 65536) if tier == 'quick' else (255, 256, 65534, 65535, 65536, 65537, 131071))] + [[0x90, 0x20, 0x41], [0x90 + nt]],
+                              verbose=False, tag='blob')
         for _ in range(30 if tier == 'quick' else 300):
             n = rng.randint(4, 40)
             pipeline.add_jobs(e, [[rng.choice(alpha + toks) for _ in range(n)]], verbose=bool(rng.getrandbits(1)), tag='r')
@@ -1991,6 +2005,8 @@ def check_C14(tier, seed):
         if not g.has_error():
             entries.append(pipeline.gen_entry(g, gid=n + '@valdflt', dflt=sorted(range(0, len(g.rules), 2))))
         entries.append(pipeline.gen_entry(g, gid=n + '@valctx', ctx=sorted(range(0, len(g.rules), 2))))
+        if g.has_error() or n in ('paren_list', 'expr_strat'):
+            entries.append(pipeline.gen_entry(g, gid=n + '@valnv', nvterms=[i for i in range(len(g.ts)) if i % 2 == 1]))      # value-less terms
     L = 4 if tier == 'quick' else 5
     for e in entries:
         ins = ws_inputs(e.g, L if len(e.g.ts) <= 3 else L - 1, [ord('?')], 400 if tier == 'quick' else 3000)      # success, syntax errors, lexical errors, recovery
@@ -2096,7 +2112,13 @@ def check_C15(tier, seed):
                     f.write(e.desc)
             pipeline._write_jobs(base + '.jobs', es)
             env = dict(os.environ); env['VERIF_THREADS'] = str(T); env['TSAN_OPTIONS'] = 'halt_on_error=0:report_signal_unsafe=0'
-            r = subprocess.run([binp, base + '.desc', base + '.jobs', base + '.out'], capture_output=True, text=True, timeout=1500, env=env)
+            try:
+                r = subprocess.run([binp, base + '.desc', base + '.jobs', base + '.out'], capture_output=True, text=True, timeout=300 if tier == 'quick' else 1200, env=env)
+            except subprocess.TimeoutExpired:
+                # (the run takes seconds; threads that corrupt each other's state may never finish)
+                out.violations.append({'summary': {'class': '%s build, %d threads on one parser object: no result within the time budget (calls that finish in isolation do not finish side by side)' % (label, T),
+                                                   'grammars': [e.gid for e in es]}, 'kind': 'threads'})
+                continue
             if r.returncode != 0 or 'ThreadSanitizer' in r.stderr:
                 out.violations.append({'summary': {'class': '%s build, %d threads on one parser object: %s' % (label, T, 'data race reported by ThreadSanitizer' if 'ThreadSanitizer' in r.stderr else 'process ended with exit %s' % r.returncode),
                                                    'grammars': [e.gid for e in es], 'report': r.stderr[:1200]}, 'kind': 'threads'})
@@ -2305,7 +2327,7 @@ def replay(pid, path):
         elif v.get('lexterms'):
             e = pipeline.lex_entry(v['gname'], [tuple(t) for t in v['lexterms']], v.get('lexshape', 'list'))
         elif v['mode'] == 'gen':
-            e = pipeline.gen_entry(g, dflt=v.get('dflt', ()), ctx=v.get('ctxr', ()), postprec=v.get('postprec', ()), defines=v.get('defines', ()), noval=v.get('noval', ()))
+            e = pipeline.gen_entry(g, dflt=v.get('dflt', ()), ctx=v.get('ctxr', ()), postprec=v.get('postprec', ()), defines=v.get('defines', ()), noval=v.get('noval', ()), nvterms=v.get('nvterms', ()))
         else:
             e = pipeline.host_entry(g, int(v['mode'][4:]))
         e.jobs = [('%s:replay' % e.gid, int(v.get('buf', 0)), int(v.get('stream', 0)), int(v.get('verbose', 1)), int(v['ws']), int(v['nl']), list(v['bytes']), int(v.get('ctx', 0)))]
